@@ -3,6 +3,9 @@
 package main
 
 import (
+	"time"
+	"path/filepath"
+	"os"
 	"encoding/binary"
 	"fmt"
 	"strings"
@@ -36,8 +39,40 @@ func uuidForms(u [16]byte, r *rng) []string {
 		strings.ReplaceAll(c, "-", ""), strings.ReplaceAll(up, "-", "")}
 }
 
+func init() {
+	// uuidtz <text>: the real binary on a file with this content, in fresh processes under different time zones: the
+	// report (a "Time (UTC)" line for versions 1, 2, 6, 7) must not depend on the zone
+	ops["uuidtz"] = func(a []string) string {
+		dir, err := os.MkdirTemp("", "vhc17")
+		if err != nil {
+			fatalf("%v", err)
+		}
+		defer os.RemoveAll(dir)
+		if err := os.WriteFile(filepath.Join(dir, "u.txt"), unhx(a[0]), 0o600); err != nil {
+			fatalf("%v", err)
+		}
+		first := ""
+		for i, tz := range []string{"UTC", "Asia/Kolkata", "America/Los_Angeles", "XXX-14", "YYY+11:30", "Pacific/Chatham"} {
+			r := runCLI(dir, []string{"u.txt"}, nil, []string{"TZ=" + tz}, 10*time.Second)
+			s := fmt.Sprintf("%d %x", r.exit, r.stdout)
+			if i == 0 {
+				first = s
+			} else if s != first {
+				return "differ TZ=" + tz
+			}
+		}
+		return "same"
+	}
+}
+
 func genC17(tier string, r *rng) {
 	emitU := func(s string) { emit("uuid", hxs(s)) }
+	// one UUID of every version (time-bearing ones with a time of day far from midnight and near it) under several zones
+	for _, u := range []string{"c232ab00-9414-11ec-b3c8-9f6bdeced846", "000003e8-9414-21ec-b300-9f6bdeced846", "1ec9414c-232a-6b00-b3c8-9f6bdeced846",
+		"017f22e2-79b0-7cc3-98c4-dc0c0c07398f", "018fffff-ffff-7cc3-98c4-dc0c0c07398f", "5df41881-3aed-3515-88a7-2f4a814cf09e", "919108f7-52d1-4320-9bac-f847db4148a8",
+		"2ed6657d-e927-568b-95e1-2665a8aea6a2", "2489e9ad-2ee2-8e00-8ec9-32d5f69181c0", "00000000-0000-0000-0000-000000000000", "ffffffff-ffff-ffff-ffff-ffffffffffff"} {
+		emit("uuidtz", hxs(u))
+	}
 	const g1582 = 122192928000000000
 	ticks := []uint64{0, 1, g1582 - 1, g1582, g1582 + 1, g1582 + 21474836470000000, g1582 + 21474836480000000,
 		1<<60 - 1, 1 << 59, 0x1EC9414C232AB00, g1582 + 16455577420000000, 9999999, 10000000, 864000000000 - 1}
